@@ -638,12 +638,22 @@ func (c *chain) buildLCA(m map[string]string) (*types.LightClientAttackEvidence,
 	id := types.BlockID{Hash: hd.Hash(), PartSetHeader: types.PartSetHeader{Total: 1, Hash: fixed(0xCC)}}
 	n := len(cvals.Validators)
 	sigs := make([]types.CommitSig, n)
+	// slot the slot mutations act on: the last one, or slot 1 for the "...1" variants
+	tgt := n - 1
+	switch mut {
+	case "flagnil1", "flagabs1", "sigaddr1", "sigaddrnil1":
+		mut = strings.TrimSuffix(mut, "1")
+		tgt = 1
+		if n < 2 {
+			tgt = 0
+		}
+	}
 	for i, v := range cvals.Validators {
 		if mut == "fewsig" && i > 0 {
 			sigs[i] = types.NewCommitSigAbsent()
 			continue
 		}
-		if mut == "flagabs" && i == n-1 {
+		if mut == "flagabs" && i == tgt {
 			sigs[i] = types.NewCommitSigAbsent()
 			continue
 		}
@@ -658,12 +668,12 @@ func (c *chain) buildLCA(m map[string]string) (*types.LightClientAttackEvidence,
 		}
 		sigs[i] = types.NewCommitSigForBlock(s, v.Address, tm(cft))
 		switch {
-		case mut == "flagnil" && i == n-1: // a nil vote: never verified, still "not absent"
+		case mut == "flagnil" && i == tgt: // a nil vote: never verified, still "not absent"
 			sigs[i].BlockIDFlag = types.BlockIDFlagNil
 			sigs[i].Signature = fixed(0x55)
-		case mut == "sigaddr" && i == n-1: // slot address outside the conflicting set (unauthenticated field)
+		case mut == "sigaddr" && i == tgt: // slot address outside the conflicting set (unauthenticated field)
 			sigs[i].ValidatorAddress, _ = addrBytes("0badc0de")
-		case mut == "sigaddrnil" && i == n-1: // same on a nil vote
+		case mut == "sigaddrnil" && i == tgt: // same on a nil vote
 			sigs[i].BlockIDFlag = types.BlockIDFlagNil
 			sigs[i].Signature = fixed(0x55)
 			sigs[i].ValidatorAddress, _ = addrBytes("0badc0de")
